@@ -337,16 +337,82 @@ def rule_crc(run):
     st = [a for a in walk_local(clear.node) if isinstance(a, ast.AugAssign) and dotted(a.target) == "self._reg"]
     ok = len(st) == 1 and dotted(st[0].value) == "self._initial_value"
     run.ob(ok, "BitwiseCrc.clear", file=mod.rel, line=clear.node.lineno, detail="restores-initial", expected="self._reg <<= self._initial_value", found=src(st[0]) if st else "missing")
-    up = mod.func("BitwiseCrc.update")
+    # one division step, decided by abstract interpretation over symbolic bits (all register / data / polynomial values):
+    #   step(r, d)[i] = ite(r[msb] ^ d,  (r << 1)[i] ^ p[i],  (r << 1)[i])
     cs = mod.func("BitwiseCrc._calc_steps")
-    import re
-    a = [re.sub(r"self\._reg\b", "PREV", src(s)).replace("data", "FIRST") for s in up.node.body[:2]]
-    b = [src(s).replace("prev", "PREV").replace("first", "FIRST") for s in cs.node.body[1:3]]
-    ok = a == b
-    run.ob(ok, "BitwiseCrc.update", file=mod.rel, line=up.node.lineno, detail="same-step", expected="same condition and shift as one step of _calc_steps", found="ok" if ok else f"{a} vs {b}")
-    t = P.T(cs.node)
-    ok = "shifted ^ self._poly if cond else shifted" in t and "self._calc_steps(result, *rest)" in t and "prev.lsb(rest=1) @ Bit(0)" in t and "cond = prev.msb() ^ first" in t
-    run.ob(ok, "BitwiseCrc._calc_steps", file=mod.rel, line=cs.node.lineno, detail="division-step", expected="shift left by one, xor the polynomial when msb ^ data, continue with the remaining bits in order", found="ok" if ok else "changed")
+    up = mod.func("BitwiseCrc.update")
+
+    class _Self:
+        def __init__(self, reg, poly):
+            self._reg, self._poly = reg, poly
+            self._invert_result, self._initial_value = False, None
+
+    def crc_prims(selfobj):
+        pr = prims()
+        base_binop = pr["__binop__"]
+
+        def binop(op, l, r):
+            if op == "LShift" and isinstance(l, BV) and isinstance(r, BV):
+                if l.width != r.width:
+                    raise Reject("register assigned a value of different width")
+                return BV(r.bits, l.kind)  # `self._reg <<= value`: the register takes the value
+            if op == "BitXor" and isinstance(l, BV) and isinstance(r, BV) and l.width == r.width:
+                return BV([Bit(f"({a} ^ {b})") for a, b in zip(l.bits, r.bits)], "BitVector")
+            return base_binop(op, l, r)
+
+        def ifexp(c, a, b):
+            if not (isinstance(c, BV) and c.width == 1 and isinstance(a, BV) and isinstance(b, BV) and a.width == b.width):
+                raise AnalysisError("crc: unsupported conditional expression")
+            return BV([Bit(f"ite({c.bits[0]}, {x}, {y})") for x, y in zip(a.bits, b.bits)], "BitVector")
+
+        def rec(*a):  # self._calc_steps(...) is resolved through the interpreter
+            return Interp(mod, crc_prims(selfobj)).call_function("BitwiseCrc._calc_steps", selfobj, *a)
+
+        pr["__binop__"] = binop
+        pr["__ifexp__"] = ifexp
+        pr["__setattr__"] = lambda o, k, v: setattr(o, k, v)
+        return pr
+
+    def spec_step(r, d, p):
+        w = r.width
+        sh = [Bit("0")] + list(r.bits[: w - 1])
+        c = f"({r.bits[-1]} ^ {d.bits[0]})"
+        return BV([Bit(f"ite({c}, ({sh[i]} ^ {p.bits[i]}), {sh[i]})") for i in range(w)], "BitVector")
+
+    for w in (2, 3, 4, 8):  # a 1-bit register has no `lsb(rest=1)` part (rejected by the vector type itself)
+        r, p_ = BV.sym("r", w), BV.sym("p", w)
+        ds = [BV([Bit(f"d{k}")], "Bit") for k in range(3)]
+        exp1 = spec_step(r, ds[0], p_)
+        exp3 = spec_step(spec_step(exp1, ds[1], p_), ds[2], p_)
+        so = _Self(r, p_)
+        so._calc_steps = lambda *a, _so=so: Interp(mod, crc_prims(_so)).call_function("BitwiseCrc._calc_steps", _so, *a)
+        try:
+            got1 = Interp(mod, crc_prims(so)).call_function("BitwiseCrc._calc_steps", so, r, ds[0])
+            got3 = Interp(mod, crc_prims(so)).call_function("BitwiseCrc._calc_steps", so, r, *ds)
+        except Reject as e:
+            got1 = got3 = f"rejected: {e}"
+        run.ob(got1 == exp1, "BitwiseCrc._calc_steps", file=mod.rel, line=cs.node.lineno, detail=f"division-step[w={w}]",
+               expected="shift left by one, xor the polynomial when msb ^ data: " + repr(exp1)[:90], found=repr(got1)[:120], sample=(w == 2))
+        run.ob(got3 == exp3, "BitwiseCrc._calc_steps", file=mod.rel, line=cs.node.lineno, detail=f"three-steps[w={w}]",
+               expected="each further bit is divided into the result of the previous step, in argument order", found=repr(got3)[:120], sample=False)
+        so2 = _Self(r, p_)
+        try:
+            Interp(mod, crc_prims(so2)).call_function("BitwiseCrc.update", so2, ds[0])
+            gotu = so2._reg
+        except Reject as e:
+            gotu = f"rejected: {e}"
+        run.ob(gotu == exp1, "BitwiseCrc.update", file=mod.rel, line=up.node.lineno, detail=f"same-step[w={w}]",
+               expected="update(d) leaves one division step of the register in the register", found=repr(gotu)[:120], sample=False)
+        um = mod.func("BitwiseCrc.update_multiple")
+        so3 = _Self(r, p_)
+        so3._calc_steps = lambda *a, _so=so3: Interp(mod, crc_prims(_so)).call_function("BitwiseCrc._calc_steps", _so, *a)
+        try:
+            Interp(mod, crc_prims(so3)).call_function("BitwiseCrc.update_multiple", so3, *ds)
+            gotm = so3._reg
+        except Reject as e:
+            gotm = f"rejected: {e}"
+        run.ob(gotm == exp3, "BitwiseCrc.update_multiple", file=mod.rel, line=um.node.lineno, detail=f"multiple[w={w}]",
+               expected="update_multiple(d0, d1, d2) == three single updates", found=repr(gotm)[:120], sample=False)
     run.end()
 
 
